@@ -227,8 +227,9 @@ func runUpload(t *testing.T, h uploadHarness, prefix []int) (s *sched.Sched, obs
 		}()
 		synctest.Test(t, func(t *testing.T) {
 			s = sched.New(prefix)
+			// the context is cancelled by the canceller thread only (or to unwind a deadlock): a goroutine
+			// that waits for a cancellation which never comes is still there when the bubble ends
 			ctx, cancel := context.WithCancel(context.Background())
-			defer cancel()
 			env := &fakeEnv{s: s, script: h.Env, log: obs.Log}
 			obs.Env = env
 			cl, err := webdav.NewClient(env, "http://h/")
@@ -368,7 +369,7 @@ func uploadHarnesses(full bool) []uploadHarness {
 	var out []uploadHarness
 	for _, ch := range chunkings {
 		for _, rs := range readSeqs {
-			for _, term := range []string{"201", "204", "200", "403", "500", "connerr", "stall", "403/json", "507/xml", "403/none", "500/text", "200/json"} {
+			for _, term := range []string{"201", "204", "200", "403", "500", "connerr", "stall", "403/json", "507/xml", "403/none", "500/text", "200/json", "300", "307/text"} {
 				for _, can := range []bool{false, true} {
 					if term == "stall" && !can {
 						continue // without a canceller a stalled server blocks for ever by construction
@@ -550,11 +551,24 @@ func clientSoloObservations(reverse bool) map[string]string {
 		}
 	}
 	out := map[string]string{}
+	hung := 0
 	for _, o := range order {
 		sys := newSystem(o.kind, 1, nil)
-		res := sys.runOp(withTID(context.Background(), 1), nil, 1, o.op)
+		// an operation that has not returned after 20 s never will (a lock left behind earlier in this process)
+		ch := make(chan string, 1)
+		go func() { ch <- sys.runOp(withTID(context.Background(), 1), nil, 1, o.op) }()
+		var res string
+		select {
+		case res = <-ch:
+		case <-time.After(20 * time.Second):
+			res = "the operation did not return within 20 s"
+			hung++
+		}
 		out["client:"+o.kind+"/"+o.op] = res + " | " + sys.stateOf(1)
 		sys.close()
+		if hung >= 3 {
+			break
+		}
 	}
 	return out
 }
